@@ -284,7 +284,7 @@ pub fn suite_c14(ctx: &mut Ctx) {
                 }
             }
             // screening sweeps (selection only; see screen.rs)
-            let l2 = ctx.q(16, 21) as u32;
+            let l2 = ctx.q(16, 19) as u32;
             crate::screen::screen_generic_conv(ctx, t, n, l2);
             // fixed posit -> generic
             for a in 0..256u64 {
